@@ -157,12 +157,18 @@ pub struct ArchOpts {
     pub dot_prefix: bool,
     pub deflate_mask: u16,
     pub file_backed: bool,
+    /// Some(k): the k-th file also has an older member with other content earlier in the archive
+    /// (appending is the normal way to edit an archive; the last member of a path is the stored one)
+    #[serde(default)]
+    pub stale_duplicate: Option<u16>,
 }
 
 #[derive(Debug, Clone)]
 pub enum Member {
     Dir(String),
     File(String, String),
+    /// an outdated copy of a file that appears again later
+    StaleFile(String, String),
 }
 
 /// The archive members in the generated order: which directories get a member of their own,
@@ -191,6 +197,17 @@ pub fn members(m: &Model, o: &ArchOpts) -> Vec<Member> {
             v.swap(i, j);
         }
     }
+    if let Some(k) = o.stale_duplicate {
+        let files: Vec<usize> = v.iter().enumerate().filter(|(_, m)| matches!(m, Member::File(..))).map(|(i, _)| i).collect();
+        if !files.is_empty() {
+            let at = files[k as usize % files.len()];
+            if let Member::File(id, ext) = v[at].clone() {
+                // somewhere before the real member
+                let pos = (k as usize / 7) % (at + 1);
+                v.insert(pos, Member::StaleFile(id, ext));
+            }
+        }
+    }
     v
 }
 
@@ -212,10 +229,14 @@ pub fn make_zip(m: &Model, o: &ArchOpts) -> Vec<u8> {
             Member::Dir(d) => {
                 w.add_directory(member_name(d, None, o.dot_prefix, false), zip::write::FileOptions::default()).expect("zip dir");
             }
-            Member::File(id, ext) => {
+            Member::File(id, ext) | Member::StaleFile(id, ext) => {
                 let method = if (o.deflate_mask >> (k % 16)) & 1 == 1 { zip::CompressionMethod::Deflated } else { zip::CompressionMethod::Stored };
                 w.start_file(member_name(id, Some(ext), o.dot_prefix, false), zip::write::FileOptions::default().compression_method(method)).expect("zip file");
-                w.write_all(&m.files[&(id.clone(), ext.clone())]).expect("zip write");
+                if matches!(mem, Member::StaleFile(..)) {
+                    w.write_all(b"outdated content of an earlier member").expect("zip write");
+                } else {
+                    w.write_all(&m.files[&(id.clone(), ext.clone())]).expect("zip write");
+                }
             }
         }
     }
@@ -228,6 +249,7 @@ pub fn make_tar(m: &Model, o: &ArchOpts) -> Vec<u8> {
         let (name, data, is_dir): (String, Vec<u8>, bool) = match &mem {
             Member::Dir(d) => (member_name(d, None, o.dot_prefix, true), Vec::new(), true),
             Member::File(id, ext) => (member_name(id, Some(ext), o.dot_prefix, false), m.files[&(id.clone(), ext.clone())].clone(), false),
+            Member::StaleFile(id, ext) => (member_name(id, Some(ext), o.dot_prefix, false), b"outdated content of an earlier member".to_vec(), false),
         };
         let mut h = tar::Header::new_gnu();
         h.set_size(data.len() as u64);
@@ -408,8 +430,9 @@ pub fn arch_opts_strategy() -> impl Strategy<Value = ArchOpts> {
         any::<bool>(),
         any::<u16>(),
         prop::bool::weighted(0.3),
+        prop_oneof![3 => Just(None), 1 => any::<u16>().prop_map(Some)],
     )
-        .prop_map(|(order, dir_members, dot_prefix, deflate_mask, file_backed)| ArchOpts { order, dir_members, dot_prefix, deflate_mask, file_backed })
+        .prop_map(|(order, dir_members, dot_prefix, deflate_mask, file_backed, stale_duplicate)| ArchOpts { order, dir_members, dot_prefix, deflate_mask, file_backed, stale_duplicate })
 }
 
 pub fn tmpdir(tag: &str) -> PathBuf {
